@@ -150,7 +150,10 @@ pub fn statement(p: &Point, seed: u64) -> Option<Statement> {
     // a Fibonacci pair occupies two columns; when the assertion set also needs a rotation column the trace gets a
     // third one instead of the point being dropped
     let width = if width == 2 && matches!(RULES[p.d[1]], RuleSel::Fib | RuleSel::Fib2) && asserts(p.d[5], n, e, width).1.is_some() { 3 } else { width };
-    let (asserts, rot) = asserts(p.d[5], n, e, width);
+    // a one-column trace has no room for the rotation column a periodic assertion needs: it keeps the single
+    // assertion on the first step instead of being dropped (so one-column shapes take part in every deviation)
+    let asel = if width == 1 && asserts(p.d[5], n, e, width).1.is_some() { 1 } else { p.d[5] };
+    let (asserts, rot) = asserts(asel, n, e, width);
     // for narrow traces two selectors can name the same cell: overlapping assertions are not part of the supported class
     let mut dedup: Vec<ASpec> = vec![];
     for a in asserts {
